@@ -14,6 +14,7 @@ demos=$(ls "$SRC" | grep '_test.go$')
 place() { # $1 = demo file
   local pkg; pkg=$(grep -m1 '^package ' "$SRC/$1" | awk '{print $2}')
   local hint; hint=$(grep -oE ' \./[a-z/]+' "$SRC/demo.txt" 2>/dev/null | head -1 | sed 's#^ \./##; s#/$##')
+  [ -n "${PKGDIR:-}" ] && hint="$PKGDIR"
   [ -z "$hint" ] && hint="pwr/patcher"
   echo "$hint"
 }
